@@ -161,6 +161,19 @@ theorem location_total (t : Ty) (p : List Proj) (t' : Ty) (hp : PathOk t p t') (
   obtain ⟨off, l', a, b, _, d⟩ := locate_ok t p t' hp L hL 0
   exact ⟨off, l', a, b, by omega⟩
 
+/-- **`location_compositional`** (T4) — the byte offset `Lowerer::location`
+    computes for a path `p ++ q` is the offset of `p` plus the offset of `q`
+    inside the component `p` addresses (and a panic / `uninhabited` of either
+    part is one of the whole). The harness checks the same identity on the real
+    lowerer's answers (`nested-offset`). -/
+theorem location_compositional (t : Ty) (p q : List Proj) (o : Nat) :
+    locate t (p ++ q) o =
+      match locate t p o with
+      | .panic => .panic
+      | .ok none => .ok none
+      | .ok (some (op, tp)) => locate tp q op :=
+  locate_append p q t o
+
 /-- **T4 `write_read`** — over a byte memory holding a value of type `t` at
     address `base`: writing component `p` (any bytes of the component's size)
     and reading it back returns what was written; reading any independent
